@@ -1,2 +1,96 @@
-(** C08 — placeholder while the proofs are being written. *)
-From WacV Require Import Str Types Convert ConvertSpec.
+(** C08 — Decoding a package preserves its component type; re-encoding stays satisfiable.
+
+    PARTIAL by design (DESIGN.md §5 C08, §10).  wasmparser's validator and its type information are external Rust
+    code; they enter as data (the abstract type graph [Convert.vgraph], produced per component by an independent
+    walk over the validator's type information).  The theorems are about the wac conversion logic — the model
+    [Convert.from_graph] of [Package::from_bytes] / [TypeConverter] (cache, [owners], [resource_map],
+    [use_or_own], self-ownership reset, [find_definitions]) — against the specification [ConvertSpec], which is
+    written over that graph and the arena-free tree denotation [Types.unfold].
+
+    Statements only; proofs in proofs/Convert{Proofs,Frame,Tree,Entity}.v. *)
+From WacV Require Import Str Types Convert ConvertSpec ConvertProofs ConvertFrame ConvertTree ConvertEntity.
+
+(** 1. The world lists exactly the component's imports and exports: same names, same order, item-wise the right
+    kind; the instance type of the package is the export list.  (The hypotheses are the validator's guarantee that
+    import names, and export names, are unique; without them [IndexMap] would collapse entries.) *)
+Theorem convert_lists_exactly : forall hfuel fuel g t0 p t,
+  NoDup (map fst (vg_imports g)) -> NoDup (map fst (vg_exports g)) ->
+  from_graph hfuel fuel g t0 = COk (p, t) ->
+  lists_exactly g t p.
+Proof. exact lists_exactly_holds. Qed.
+Print Assumptions convert_lists_exactly.
+
+(** 2. Faithfulness on the resource-free fragment: every item of the world unfolds to EXACTLY the tree of the
+    validator entity — function parameter names, order, result, async flag; every value-type constructor
+    (primitive, record, variant, list, fixed-size list, tuple, flags, enum, option, result with each arm present
+    or absent, future, stream); names and order of the items of nested instance and component types; core module
+    types.  [spec_tree] is [None] below a resource ([own], [borrow], resource type items) and for [map] types, so
+    nothing is claimed there: that is the [_partial].
+
+    Full statement (not proved): the same with resources, each [own r] / [borrow r] denoting the resource of [r]
+    up to the one-to-one renaming of [ConvertSpec.resources_agree] — see [resource_alias_spec] below. *)
+Theorem convert_tree_faithful_partial : forall hfuel fuel g t0 p t,
+  NoDup (map fst (vg_imports g)) -> NoDup (map fst (vg_exports g)) ->
+  from_graph hfuel fuel g t0 = COk (p, t) ->
+  exists w, get_world t (pk_ty p) = Some w /\
+    Forall2 (fun a b => fst a = fst b /\ tree_faithful g t (snd a) (snd b)) (vg_imports g) (w_imports w) /\
+    Forall2 (fun a b => fst a = fst b /\ tree_faithful g t (snd a) (snd b)) (vg_exports g) (w_exports w).
+Proof. intros hfuel fuel g. exact (tree_faithful_holds g hfuel fuel). Qed.
+Print Assumptions convert_tree_faithful_partial.
+
+(** the boolean predicate that the correspondence driver evaluates on the REAL implementation's arenas implies
+    the declarative statement of 1. *)
+Theorem lists_exactly_b_implies : forall g t p, lists_exactly_b g t p = true -> lists_exactly g t p.
+Proof. exact lists_exactly_b_sound. Qed.
+Print Assumptions lists_exactly_b_implies.
+
+(** 3.-5. Stated, not proved; their executable forms are evaluated on every implementation observation by the
+    correspondence ([walk_package], [ids_one_to_one_b], [resources_agree_b], [expected_uses] / [uses_agree_b]).
+
+    convert_cache_consistent :
+      forall ... from_graph hfuel fuel g t0 = COk (p, t) -> exists evs,
+        walk_package g t ufuel p = Some evs /\ ids_one_to_one evs
+      (the joint traversal of the validator graph and the converted world succeeds, the same validator identifier
+       is always met with the same wac identifier, and distinct validator identifiers with distinct ones; that
+       distinct identifiers with equal trees convert to tree-equal types is a corollary of 2.)
+
+    use_synthesis_spec :
+      ... -> expected_uses hfuel g (sites_of evs) [] [] = Some l /\ uses_agree t l
+      (a `use` entry exists exactly for a type item whose referenced type goes back, through the validator's alias
+       links, to an item first exported by another interface; it names that interface and the original item name,
+       the latter only when it differs)
+
+    resource_alias_spec_partial :
+      ... -> res_pairs ufuel g t (maps_of evs) = Some l /\ resources_agree l
+      (two converted resources have the same alias root iff the validator gives them the same resource)
+
+    reencode_satisfiable : not stated in Coq (TypeEncoder is not modelled); tested against the reference validator
+      for every generated component, see tools/props/c08.py. *)
+
+(** Non-vacuity: a component importing [f: func(x: record { a: u8, b: option<string> }) -> result<_, u32>] under an
+    interface name and re-exporting a type; the model converts it, the world has one import and one export, and
+    the imported instance unfolds to the expected tree. *)
+Definition n_r : str := [114].   Definition n_f : str := [102].   Definition n_a : str := [97].
+Definition n_b : str := [98].   Definition n_x : str := [120].   Definition n_t : str := [116].
+Definition n_abc : str := [97; 58; 98; 47; 99].                        (* "a:b/c" *)
+Definition ex_empty : types := mktypes 1 [] [] [] [] [] [].
+Definition ex_graph : vgraph :=
+  (mkvg [ (NInst [(n_r, EType 1 2); (n_f, EFunc 4)], None);                          (* 0: instance { r, f } *)
+          (NDef (WDRecord [(n_a, WPrim PU8); (n_b, WRef 3)]), None);                   (* 1: record *)
+          (NDef (WDRecord [(n_a, WPrim PU8); (n_b, WRef 3)]), Some 1);                 (* 2: its exported copy *)
+          (NDef (WDOption (WPrim PString)), None);                                      (* 3 *)
+          (NFunc false [(n_x, WRef 2)] (Some (WRef 5)), None);                          (* 4 *)
+          (NDef (WDResult None (Some (WPrim PU32))), None) ]                            (* 5 *)
+        [(n_abc, EInstance 0)] [(n_t, EType 2 2)] [n_abc])%nat.
+
+Example convert_nonvacuous :
+  exists p t w,
+    from_graph 20 20 ex_graph ex_empty = COk (p, t) /\ get_world t (pk_ty p) = Some w /\
+    map fst (w_imports w) = [n_abc] /\ map fst (w_exports w) = [n_t] /\
+    option_map (unfold 20 t) (option_map snd (hd_error (w_imports w))) =
+    Some (spec_tree 20 ex_graph (EInstance 0%nat)) /\
+    spec_tree 20 ex_graph (EInstance 0%nat) =
+    Some (XInst [(n_r, XTValue (VTRecord [(n_a, VTPrim PU8); (n_b, VTOption (VTPrim PString))]));
+                 (n_f, XFunc (mkft [(n_x, VTRecord [(n_a, VTPrim PU8); (n_b, VTOption (VTPrim PString))])]
+                                   (Some (VTResult None (Some (VTPrim PU32)))) false))]).
+Proof. vm_compute. do 3 eexists. repeat split. Qed.
